@@ -14,7 +14,7 @@ sys.path.insert(0, os.path.join(fw.ROOT, "gen"))
 import ser  # noqa: E402
 
 DRV_FLAGS = ["-std=gnu++20", "-fno-access-control"]
-MC_TIMEOUT = 40
+MC_TIMEOUT = 20
 
 
 # ---------------------------------------------------------------------------------------------- spec helpers
@@ -291,8 +291,36 @@ def run_scenario(prog, name, params):
     return rc, out, cmd
 
 
+class Model:
+    """the extracted model, built once (fw.run_model would take the shared Coq lock at every call)"""
+
+    def __init__(self, area):
+        self.exe = fw.build_model(area)
+
+    def run(self, fn, cases):
+        if not cases:
+            return []
+        inp = "\n".join(" ".join(str(int(x)) for x in c) for c in cases) + "\n"
+        rc, so, se = fw.sh2([self.exe, fn], inp=inp, timeout=1800)
+        lines = so.split("\n")
+        if lines and lines[-1] == "":
+            lines.pop()
+        if rc != 0 or len(lines) != len(cases):
+            raise fw.BuildError("model %s: rc %d, %d answers for %d cases: %s" % (fn, rc, len(lines), len(cases), se[-500:]))
+        return [[int(t) for t in l.split()] for l in lines]
+
+
 def run(ctx):
+    import time
+    t0 = time.time()
+    timing = ctx.cov.setdefault("timing_s", {})
+
+    def lap(name):
+        nonlocal t0
+        timing[name] = round(time.time() - t0, 1)
+        t0 = time.time()
     ctx.simgrid(["simgrid", "simgrid-mc"])
+    lap("build simgrid")
     rep = json.load(open(ctx.replay))["case"] if ctx.replay else None
 
     # ---- T: regenerate the tables from the source
@@ -306,8 +334,11 @@ def run(ctx):
     ctx.prove(extra_trusted=["gen/ser.py (clang-14 JSON AST -> wire item sequences); construction sites of observers found by regex",
                              "little-endian two's-complement machine, sizeof as printed by the driver ('sizes')"])
 
+    lap("translate+prove")
+    model = Model("c43")
     drv = fw.build_harness("mc2_ser_drv", extra=DRV_FLAGS + ["-I" + fw.REPO + "/src/smpi/include"])
     prog = fw.build_harness("mc2_prog", extra=["-std=gnu++20"])
+    lap("build model+harness")
     dist = {"obs": 0, "synthetic": 0, "prims": 0, "scenarios": 0}
     ctx.cov["rule"] = ("one case = one observer serialization with random parameters (obs), one random well-typed transition of the "
                        "application's table decoded by the real deserialize_transition (synthetic), one random primitive list through "
@@ -413,8 +444,8 @@ def run(ctx):
                     enc_in.append([exp[0], 1, 4, 0, p[1]])
                 else:
                     enc_in.append([p[1]] + model_prims(p[2], p[3]))
-        enc_out = fw.run_model("c43", "run_c43_enc", enc_in) if enc_in else []
-        dec_out = fw.run_model("c43", "run_c43_dec", [t[2] for t in todo]) if todo else []
+        enc_out = model.run("run_c43_enc", enc_in) if enc_in else []
+        dec_out = model.run("run_c43_dec", [t[2] for t in todo]) if todo else []
         real = drive(["deser " + " ".join(map(str, t[2])) for t in todo]) if todo else []
         ref_by_line = {r[0]: r for r in enc_ref}
         for (line, obs_name, bts, exp), md, rl in zip(todo, dec_out, real):
@@ -470,7 +501,7 @@ def run(ctx):
             pcs.append([tv[0]] + model_prims(fi, fv))
             plan.append((len(enc_in), pcs))
             enc_in += [p[1] if isinstance(p, tuple) else p for p in pcs]
-        enc_out = fw.run_model("c43", "run_c43_enc", enc_in) if enc_in else []
+        enc_out = model.run("run_c43_enc", enc_in) if enc_in else []
         byts = []
         for (k, pcs) in plan:
             mb = []
@@ -479,7 +510,7 @@ def run(ctx):
                 mb += b if (i == 0 or isinstance(p, tuple)) else b[4:]
             byts.append(mb)
         real = drive(["deser " + " ".join(map(str, b)) for b in byts]) if byts else []
-        mdec = fw.run_model("c43", "run_c43_dec", byts) if byts else []
+        mdec = model.run("run_c43_dec", byts) if byts else []
         for (o, tv), b, rl, md in zip(syn, byts, real, mdec):
             dist["synthetic"] += 1
             case = {"kind": "synthetic", "observer": o, "tv": tv}
@@ -497,6 +528,7 @@ def run(ctx):
             if pm is None or canon(pm[0]) != canon(got) or pm[1] != 0:
                 ctx.mismatch("dec_tval", "model decodes %s, the checker %s" % (pm, got), case)
 
+    lap("observers+synthetic")
     # ---- primitives through the real Channel vs the model encoder
     n_pr = ctx.n(200, 4000)
     kinds = [("b", ("B",)), ("i1s", ("I", 1, True)), ("i1u", ("I", 1, False)), ("i2s", ("I", 2, True)), ("i2u", ("I", 2, False)),
@@ -517,7 +549,7 @@ def run(ctx):
         pvals.append((ks, vals))
     if plines:
         real = drive(plines)
-        mod = fw.run_model("c43", "run_c43_enc", pmodel)
+        mod = model.run("run_c43_enc", pmodel)
         ulines = []
         for l, r, m, (ks, vals) in zip(plines, real, mod, pvals):
             dist["prims"] += 1
@@ -533,6 +565,7 @@ def run(ctx):
             if toks != want_t:
                 ctx.fail("channel-roundtrip", "Channel::unpack(Channel::pack(x)) != x: sent %s, got back %s" % (want_t, toks), {"kind": "prims", "line": l})
 
+    lap("primitives")
     # ---- O: one program per simcall kind under simgrid-mc
     todo = [(name, pg(ctx.rng)) for (name, _, pg) in SCENARIOS for _ in range(ctx.n(1, 4))]
     if rep:
@@ -551,6 +584,7 @@ def run(ctx):
             ctx.fail("unclear-error-" + name, "simgrid-mc ends with rc=%d and no clear message on scenario '%s %s': %s" % (rc, name, params, out[-400:]), case)
         elif rc == 0 and states == 0:
             ctx.mismatch("scenario-output", "no exploration summary for '%s': %s" % (name, out[-300:]), case)
+    lap("scenarios")
     ctx.cov["input_distribution"] = dist
     ctx.assumptions += ["application and checker run on the same machine (same endianness, same sizeof), as simgrid-mc requires",
                         "actor ids carried as aid_t are -1 or below max_threads-1 = 31 (larger ones make the checker raise AidCannotBeAboveMaxThreads, a clear error)",
